@@ -308,7 +308,8 @@ def real_cases(draw, tier):
             c["then"]["fan"] = {str(i): c["then"]["fan"].get(str(i), 1) for i in c["then"]["items_list"]}
     if c["via"] == "read_wait" and (c["abandon"] is not None or (c.get("then") and c["then"]["abandon"] is not None)):
         c["via"] = "pipes"
-    if c["raising"] and c["via"] == "pipes" and not c.get("then") and draw(st.integers(0, 3)) == 0:
+    if c["raising"] and c["via"] == "pipes" and not c.get("then") and not (c["n"] == 1 and c["m"] == 0) and draw(st.integers(0, 3)) == 0:
+        # (with one process and no maxtasksperchild the filter runs inside the calling process: there is no worker to kill)
         # a worker process that dies hard in the middle of an item: the call must still terminate
         c["kinds"] = dict(c["kinds"], **{str(c["raising"][0]): "die"})
     return c
